@@ -62,7 +62,7 @@ def visit(acc, blk, vec, asg, idx):
 
 
 def blocks(tier):
-    return spaces.v2_blocks(tier)
+    return spaces.v2_blocks(tier) + [spaces.interaction_block("2", tier)]
 
 
 def run(ctx, res):
@@ -78,6 +78,7 @@ def run(ctx, res):
                "points are distinct by construction; non-trivial = base score is not 0.0",
                exhaustive=True)
     res.coverage["official_vectors_reproduced_by_model"] = n_off
+    res.coverage["interaction_rows"] = spaces.interaction_evidence(["2"], ctx.tier)
     res.coverage["points_where_negative_tie_rounding_admits_two_values"] = amb
     res.coverage["bound"] = ("full 729 x 49 x 541 product + spelling blocks" if ctx.thorough else
                              "<=1 free group around a 54 x 8 x 12 skeleton, base x temporal, "
